@@ -846,6 +846,21 @@ impl Gen {
                 }
                 Tup(vec![Bin(d), Int(given)])
             }
+            "integer_sqrt" => {
+                // perfect squares and their neighbours at every magnitude (floor must not round up)
+                let k = match r.below(6) {
+                    0 => BigInt::from(r.next() >> 32),
+                    1 => BigInt::from(r.next() >> 11),
+                    2 => BigInt::from(r.next()),
+                    3 => BigInt::from(2).pow(*r.pick(&[26u32, 27, 31, 32, 33, 52, 53, 63, 64])) + r.range(-2, 2),
+                    4 => BigInt::from(r.next()) * BigInt::from(r.next()),
+                    _ => BigInt::from(r.range(0, 100000)),
+                };
+                match r.below(8) {
+                    0 => Int(self.int(r)),
+                    _ => Int(&k * &k + r.range(-2, 2)),
+                }
+            }
             "integer_shift" => Tup(vec![
                 Int(self.int(r)),
                 match r.below(4) {
